@@ -540,4 +540,78 @@ func registerDeltaFixed() {
 			c.nontrivial = true
 			foHistory(c, lists, m%2 == 1, int(m/2))
 		}})
+
+	// a decoder that is given up in the middle of a table (one block read, any index) and then reads another table,
+	// whose first block access is at any index - not necessarily 0, not in order (held decoder / pooled decoder)
+	register(family{name: "fo.partial",
+		enum: func(th bool, emit func(p ...int64) bool) {
+			n := int64(len(foHistLists))
+			for a := int64(0); a < n; a++ {
+				for b := int64(0); b < n; b++ {
+					for pooled := int64(0); pooled < 2; pooled++ {
+						if !emit(pooled, a, b) {
+							return
+						}
+					}
+				}
+			}
+		},
+		run: func(c *ctx) {
+			a, b := foHistLists[c.p[1]], foHistLists[c.p[2]]
+			pooled := c.p[0] == 1
+			c.text = fmt.Sprintf("offset tables %v then %v through one decoder (pooled=%v), first table given up after one block", a, b, pooled)
+			c.nontrivial = len(a) > 0 && len(b) > 0
+			if len(a) == 0 || len(b) == 0 || a[len(a)-1] >= maxBlockCheck || b[len(b)-1] >= maxBlockCheck {
+				c.outcome("partial: skipped")
+				return
+			}
+			ea, eb := encoding.NewFixedOffsetEncoder(true), encoding.NewFixedOffsetEncoder(true)
+			da, err1 := foEncode(ea, a, foAddWrite)
+			db, err2 := foEncode(eb, b, foAddWrite)
+			if err1 != nil || err2 != nil {
+				c.outcome("partial: not encodable")
+				return
+			}
+			blockA, blockB := dataBlock(a[len(a)-1]+2), dataBlock(b[len(b)-1]+2)
+			for k := range a {
+				for j := range b {
+					var d *encoding.FixedOffsetDecoder
+					if pooled {
+						d = encoding.GetFixedOffsetDecoder()
+					} else {
+						d = encoding.NewFixedOffsetDecoder()
+					}
+					if _, err := d.Unmarshal(da); err != nil {
+						c.viol("reuse", "partial", "FixedOffsetDecoder.Unmarshal", "error %v for offsets %v", err, a)
+						return
+					}
+					if _, err := d.GetBlock(k, blockA); err != nil {
+						c.viol("reuse", "partial", "FixedOffsetDecoder.GetBlock", "GetBlock(%d) error %v (offsets %v)", k, err, a)
+						return
+					}
+					if pooled {
+						encoding.ReleaseFixedOffsetDecoder(d)
+						d = encoding.GetFixedOffsetDecoder()
+					}
+					if _, err := d.Unmarshal(db); err != nil {
+						c.viol("reuse", "partial", "FixedOffsetDecoder.Unmarshal", "error %v for offsets %v", err, b)
+						return
+					}
+					end := len(blockB)
+					if j+1 < len(b) {
+						end = b[j+1]
+					}
+					blk, err := d.GetBlock(j, blockB)
+					if err != nil || !bytes.Equal(blk, blockB[b[j]:end]) {
+						c.viol("reuse", "partial", "FixedOffsetDecoder.GetBlock",
+							"decoder read block %d of offsets %v, then offsets %v: GetBlock(%d) = %d bytes, err %v; want dataBlock[%d:%d]", k, a, b, j, len(blk), err, b[j], end)
+						return
+					}
+					if pooled {
+						encoding.ReleaseFixedOffsetDecoder(d)
+					}
+				}
+			}
+			c.outcome("partial: multi=%v x multi=%v", len(a) > 1, len(b) > 1)
+		}})
 }
